@@ -921,6 +921,17 @@ C08_OneShot(s, e, t) ==
          e.name = "EndBlock" /\ <<s.h, id>> \in s.expQ /\ s.ctx[id].batch = 1
     /\ (e.name = "EndBlock" /\ <<s.h, id>> \in s.expQ) => id \notin DOMAIN t.ctx
 
+(* C08: an accepted call stands for a request context of its own.  "A one-shot
+   context issues one batch and is then removed; a repeated one follows its schedule;
+   only its consumer can pause/start/kill/update it": a context therefore never changes
+   or disappears because somebody CALLS a service, and every accepted call has a context
+   that did not exist before (seed C08-s5: two calls carried by one transaction received
+   the same id, the second context replaced the first, whose batch was never issued) *)
+C08_CallFresh(s, e, t) ==
+  (e.name \in {"Call", "ModCall"} /\ e.ok) =>
+    /\ \A id \in DOMAIN s.ctx : id \in DOMAIN t.ctx /\ t.ctx[id] = s.ctx[id]
+    /\ (~(e.name = "Call" /\ e.svc = OSVC)) => (\E id \in DOMAIN t.ctx : id \notin DOMAIN s.ctx)
+
 (* C08: schedule of a repeated context.  g0 = the ghost state BEFORE the step *)
 (* relax = TRUE: modulo finding F21 (a context paused across the expiry of its
    last batch is not completed; Start then issues batches beyond the total) *)
@@ -1453,6 +1464,7 @@ Act_Rejected_NoEffect == [][Rejected_NoEffect(st, ev', st')]_vars
 Act_C08_OneOutcome == [][C08_OneOutcome(st, ev', st', gh')]_vars
 Act_C08_RespondGuards == [][C08_RespondGuards(st, ev')]_vars
 Act_C08_OneShot == [][C08_OneShot(st, ev', st')]_vars
+Act_C08_CallFresh == [][C08_CallFresh(st, ev', st')]_vars
 Act_C08_Schedule == [][C08_Schedule(st, ev', st', gh)]_vars
 Act_C08_Schedule_ModF21 == [][C08_Schedule_ModF21(st, ev', st', gh)]_vars
 Act_C08_Authority == [][C08_Authority(st, ev')]_vars
